@@ -236,17 +236,18 @@ func (w *srvWorld) Finish(x *h.Exec) *h.Finding {
 	sc := w.sc
 	desc := w.desc(x)
 	// ---- invariants at the last quiescent state of the explored part ----
+	// (filled in after the drain: whether a Close call *won*, i.e. did not report ErrServerClosed - a Close
+	// that lost against a concurrent Shutdown does nothing, and Shutdown leaves connections alone)
 	closeCalled, closeReturned := false, false
-	for _, a := range w.admin {
-		if a.name == "close" {
-			closeCalled = true
-			closeReturned = a.returned
-		}
-	}
 	x.Drain()
 	h.Wait()
 	// After Close has returned and everything that was in flight has settled, no accepted
 	// connection may still be open or served (checked BEFORE the harness hangs up itself).
+	for _, a := range w.admin {
+		if (a.name == "close" || a.name == "close2") && a.returned && a.err == nil {
+			closeCalled, closeReturned = true, true
+		}
+	}
 	if closeCalled {
 		h.Wait()
 		for ci, c := range w.conns {
@@ -631,7 +632,8 @@ func C20(tier string) int {
 	var lockScs []SrvScenario
 	for _, sc := range scs {
 		switch sc.Name {
-		case "F1-bdat-slow-RSET", "F1-bdat-slow-disconnect", "F3-shutdown-1conn-quit", "F4-accept-c", "F4-accept-tc", "F4-accept-cc":
+		case "F1-bdat-slow-RSET", "F1-bdat-slow-disconnect", "F1-bdat-noread-BDAT", "F1-bdat-slow-QUIT", "F3-shutdown-1conn-quit", "F3-shutdown-1conn-cancel", "F3-close-then-shutdown",
+			"F4-accept-c", "F4-accept-tc", "F4-accept-cc", "F4-accept-ct", "F4-accept-cp", "F6-close-during-callbacks-QUIT", "F6-shutdown-during-callbacks", "F7-two-conns-mid-bdat-shutdown":
 			lockScs = append(lockScs, sc)
 		}
 	}
